@@ -134,7 +134,7 @@ CHECKS = {
         "assumptions": ["the proxy emulates ssh-agent lock semantics (empty list, failure for everything else, passphrase compare)"],
         "subchecks": [R("TestC08Lock", 400, 2000, qs=2), R("TestC08LockRace", 40, 400, qs=2, ts=8),
                       R("TestC08Slow", 4, 24, qs=8, ts=16, quick_extra={"timeout": 300}),
-                      R("TestC08UnlockUnlocked", 200, 2000, ts=4)],
+                      R("TestC08UnlockUnlocked", 200, 2000, ts=4), E("TestC08BusyLocked")],
     },
     "C09": {
         "pkg": "c09", "level": "exploration",
